@@ -2,10 +2,11 @@
 
 (a) PROOF   GrassProofs.C02: interner laws, non-interference of the identifier/id discipline,
             offset/schedule invariance of the id counters, the two as-found leaks.
-(b) TIE     the as-found model (key-ordered iteration of `BTreeMap<Identifier,_>`) predicts, for a
-            given history of interned names, the order in which real grass lists `keywords()` and
-            the names of "No arguments named …"; hash-ordered listings must be rearrangements of
-            the model's member set.  + static list of container iteration sites.
+(b) TIE     the model of the code as it stands predicts, for a given history of interned names, the
+            order in which real grass lists keywords() and the names of "No arguments named …"
+            (insertion order), a module's own members and the variable a `with` error names (key =
+            interning order), and the members of a module with @forward (upstream order).
+            + static list of container iteration sites.
 (c) DIRECT  the metamorphic run on real grass: obs(history · p) = obs(p) on one thread, on N
             concurrent threads, in fresh processes; P̂ (`sameObs`, `uniqueIdsOk`) evaluated by the
             Lean driver on the implementation's own output.  This part is TESTING.
@@ -254,6 +255,11 @@ def same_path_histories(p, rng):
 # ---- minimal past failures / known-finding witnesses: run first on every run -------------------
 # (id, history sources, program); the known-finding witnesses are read from known-findings.d/C02.json
 CORPUS = [
+    # repaired in /repo (adef70c, d156cce): regression cases, any difference is a violation again
+    ("past:D13a1-keywords-order", ["$yq: 0; $zq: 0;"], P(src="@function f($args...){@return inspect(keywords($args))} a{b:f($zq:1,$yq:2)}", origin="corpus-list")),
+    ("past:D13a2-no-arguments-named", ["$yq: 0; $zq: 0;"], P(src="@function g($a){@return 1} a{b:g($a:1,$zq:1,$yq:2)}", origin="corpus-list")),
+    ("past:D13b-forward-members", [], P(files={"e.scss": "@use 'sass:meta'; @use 'm'; a{b:inspect(meta.module-variables('m'))}",
+                                                "m.scss": "@forward 'n'; $zq:1; $yq:2;", "n.scss": "$xq:3; $wq:4;"}, entry="e.scss", origin="corpus-list")),
     ("past:map-keys-after-history", ["$yq: 0; $zq: 0;"], P(src="a{b: map-keys((zq: 1, yq: 2)); c: inspect((zq: 1, yq: 2))}", origin="corpus-list")),
     ("past:extend-after-history", [".w1{x:y} .yq{@extend .w1}"], P(src=".zq{a:b} .yq{c:d} .w1{@extend .zq; @extend .yq} .zq .yq{e:f}", origin="corpus-list")),
 ]
@@ -291,24 +297,19 @@ def _names(sentence):
     return sorted(x for x in re.split(r",\s*|\s+or\s+", sentence) if x)
 
 
-def classify(text, a, b):
-    """Class tags for two differing observations `a`, `b` of the program `text` (see known-findings.d/C02.json)."""
+def classify(text, a, b, has_history=True):
+    """Class tags for two differing observations `a`, `b` of the program `text` (see known-findings.d/C02.json).
+    Both remaining classes are dependences on the thread's HISTORY: without one no tag applies."""
     tags = []
-    if a[0] != b[0]:
+    if a[0] != b[0] or not has_history:
         return tags
     if a[0] == "err":
         la, lb = a[1].split("\n"), b[1].split("\n")
-        ma, mb = _NO_ARGS.match(la[0]), _NO_ARGS.match(lb[0])
-        if ma and mb and _names(ma.group(1)) == _names(mb.group(1)) and la[1:] == lb[1:]:
-            tags.append("D13a-no-arguments-named")
         if _CONFIG.match(la[0]) and _CONFIG.match(lb[0]) and re.search(r"\bwith\s*\(|\$with\s*:", text):
             tags.append("D13a-config-first")
     elif a[0] == "css":
-        if _atoms(a[1]) == _atoms(b[1]):
-            if "keywords(" in text:
-                tags.append("D13a-keywords-order")
-            if re.search(r"module-(variables|functions)\(", text):
-                tags.append("D13b-module-members-forward-order" if "@forward" in text else "D13a-module-members-order")
+        if _atoms(a[1]) == _atoms(b[1]) and re.search(r"module-(variables|functions)\(", text):
+            tags.append("D13a-module-members-order")
     return tags
 
 
@@ -350,8 +351,10 @@ class Run:
             if v != "ok 0":
                 self.ck.cov["unsupported_dropped"] += 1
                 continue
+            hh = ctx["mode"] == "seq" or (ctx["mode"] == "witness" and bool(ctx.get("history"))) or \
+                (ctx.get("_hl") is not None and ctx["_hl"][1] > 0)
             self.failures.append({"program": p, "ctx": ctx, "reference": ref, "other": other,
-                                  "tags": classify(prog_text(p), ref, other)})
+                                  "tags": classify(prog_text(p), ref, other, hh)})
         self.pending = []
 
 
@@ -360,90 +363,106 @@ def seq_job(history_jobs, p):
 
 
 def model_tie(ck, pool, tier):
-    """(b) the as-found model predicts the order real grass produces, for generated histories."""
+    """(b) the model of the code AS IT STANDS predicts the order real grass produces after generated
+    histories: insertion order for keywords() / "No arguments named" (IndexMap since adef70c), key
+    (= interning) order for a module's own members and for the variable a `with` error names."""
     rng = ck.rng
-    n_cases = 150 if tier == "quick" else 2000
+    n_cases = 200 if tier == "quick" else 2400
     names_pool = [f"k{c}q{i}" for c in "abcdefg" for i in range(3)]
     cases, jobs = [], []
     for i in range(n_cases):
-        kind = rng.choice(["keywords", "unknown"])
+        kind = rng.choice(["keywords", "unknown", "members", "cfgfirst"])
         call = rng.sample(names_pool, rng.randint(2, 5))
         nh = rng.choice([0, 1, 1, 2])
         hist = [rng.sample(call + rng.sample(names_pool, 2), rng.randint(1, len(call))) for _ in range(nh)]
         decl = []
         if kind == "keywords":
-            src = "@function f($args...){@return inspect(keywords($args))} a{b:f(" + \
-                  ", ".join(f"${x}: 1" for x in call) + ")}"
+            job = compile_job("@function f($args...){@return inspect(keywords($args))} a{b:f(" +
+                              ", ".join(f"${x}: 1" for x in call) + ")}")
+        elif kind == "unknown":
+            decl = (rng.sample(call, rng.randint(0, len(call) - 2)) if len(call) > 2 else []) + \
+                rng.sample([x for x in names_pool if x not in call], 1)
+            job = compile_job("@function g(" + ", ".join(f"${x}: 0" for x in decl) + "){@return 1} a{b:g(" +
+                              ", ".join(f"${x}: 1" for x in call) + ")}")
+        elif kind == "members":
+            job = compile_job(files={"e.scss": "@use 'sass:meta'; @use 'm'; a{b:inspect(meta.module-variables('m'))}",
+                                     "m.scss": " ".join(f"${x}: 1;" for x in call)}, entry="e.scss")
         else:
-            decl = rng.sample(call, rng.randint(0, len(call) - 2)) if len(call) > 2 else []
-            decl_extra = decl + rng.sample([x for x in names_pool if x not in call], 1)
-            decl = decl_extra
-            src = "@function g(" + ", ".join(f"${x}: 0" for x in decl) + "){@return 1} a{b:g(" + \
-                  ", ".join(f"${x}: 1" for x in call) + ")}"
-        cases.append((kind, hist, decl, call, src))
-        jobs.append({"mode": "seq", "jobs": [compile_job(hist_vars(h)) for h in hist] + [compile_job(src)]})
+            job = compile_job(files={"e.scss": "@use 'm' with (" + ", ".join(f"${x}: 1" for x in call) + "); a{b:c}",
+                                     "m.scss": "$unrelated: 1 !default;"}, entry="e.scss")
+        cases.append((kind, hist, decl, call, job))
+        jobs.append({"mode": "seq", "jobs": [compile_job(hist_vars(h)) for h in hist] + [job]})
     answers = pool.map(jobs, timeout=30)
+    enc = lambda l: ",".join(hexs(x) for x in l) if l else "-"
     lines = []
-    for kind, hist, decl, call, src in cases:
+    for kind, hist, decl, call, job in cases:
         flat = [x for h in hist for x in h]
-        enc = lambda l: ",".join(hexs(x) for x in l) if l else "-"
-        if kind == "keywords":
-            lines.append(f"intern keywords 1 {enc(flat)} {enc(call)}")
-            lines.append(f"intern keywords 0 {enc(flat)} {enc(call)}")
+        if kind in ("keywords", "members"):
+            lines += [f"intern keywords 1 {enc(flat)} {enc(call)}", f"intern keywords 0 {enc(flat)} {enc(call)}"]
+        elif kind == "unknown":
+            lines += [f"intern unknown 1 {enc(flat)} {enc(decl)} {enc(call)}", f"intern unknown 0 {enc(flat)} {enc(decl)} {enc(call)}"]
         else:
-            lines.append(f"intern unknown 1 {enc(flat)} {enc(decl)} {enc(call)}")
-            lines.append(f"intern unknown 0 {enc(flat)} {enc(decl)} {enc(call)}")
+            lines += [f"intern cfgfirst 1 {enc(flat)} {enc(call)}", f"intern cfgfirst 0 {enc(flat)} {enc(call)}"]
     outs = driver(lines)
     dec = lambda o: [unhex(x) for x in o[3:].split(",")] if o.startswith("ok ") and o != "ok -" else []
-    for i, ((kind, hist, decl, call, src), ans) in enumerate(zip(cases, answers)):
-        as_found, spec = dec(outs[2 * i]), dec(outs[2 * i + 1])
+    NOW_BY_KEY = {"keywords": False, "unknown": False, "members": True, "cfgfirst": True}     # the code as it stands
+    for i, ((kind, hist, decl, call, job), ans) in enumerate(zip(cases, answers)):
+        by_key, insertion = dec(outs[2 * i]), dec(outs[2 * i + 1])
         if not outs[2 * i].startswith("ok"):
             ck.cov["unsupported_dropped"] += 1
             continue
+        expect = by_key if NOW_BY_KEY[kind] else insertion
         last = ans["results"][-1] if ans.get("status") == "ok" and ans.get("results") else {}
         o = observe(last)
-        if kind == "keywords":
+        got = None
+        if kind in ("keywords", "members"):
             m = re.search(r"b: \((.*)\);", o[1]) if o[0] == "css" else None
-            got = [kv.split(":")[0].strip() for kv in m.group(1).split(",")] if m else None
-        else:
+            got = [kv.split(":")[0].strip().strip('"') for kv in m.group(1).split(",")] if m else None
+        elif kind == "unknown":
             m = re.match(r"Error: No arguments? named (.*)\.\n", o[1]) if o[0] == "err" else None
             got = [x.lstrip("$") for x in re.split(r",\s*|\s+or\s+", m.group(1))] if m else None
-        ck.count(("tie", kind, hist, decl, call), nontrivial=bool(hist) and as_found != spec)
+        else:
+            col = (last.get("err") or {}).get("begin_col")
+            src = job["files"]["e.scss"]
+            m = re.match(r"\$([\w-]+)", src[col:]) if isinstance(col, int) and o[0] == "err" and _CONFIG.match(o[1].split("\n")[0]) else None
+            got = [m.group(1)] if m else None
+        ck.count(("tie", kind, hist, decl, call), nontrivial=bool(hist) and by_key != insertion)
         ck.hist("tie:" + kind)
-        ck.hist("tie:history-changes-order" if as_found != spec else "tie:order-unaffected")
-        if i < 2:
+        ck.hist("tie:history-matters-for-key-order" if by_key != insertion else "tie:orders-coincide")
+        if i < 4:
             ck.sample({"tie": kind, "history": hist, "declared": decl, "call": call, "grass": got,
-                       "model_as_found": as_found, "model_specified(insertion order)": spec})
-        if got != as_found:
+                       "model_now": expect, "model_key_order": by_key, "model_insertion_order": insertion})
+        if got != expect:
             ck.cov["model_disagreements"] += 1
             if len(ck.disagreements) < 3:
-                ck.disagreements.append({"source": src, "history": hist, "model_observation": as_found,
-                                         "impl_observation": got if got is not None else list(o)})
+                ck.disagreements.append({"kind": kind, "source": job.get("input") or job.get("files"), "history": hist,
+                                         "model_observation(now)": expect, "impl_observation": got if got is not None else list(o)})
 
 
 def hashed_tie(ck, pool, tier):
-    """(b) for D13(b): every listing real grass produces is a rearrangement of the model's member set."""
-    w = [x for x in _witnesses() if x[0] == "D13b-module-members-forward-order"]
+    """(b) members of a module with @forward: since d156cce the merged view keeps upstream order, so every
+    run lists them alike — forwarded module first, then the module's own (model: insertion order)."""
+    w = [x for x in _witnesses() if x[0] == "past:D13b-forward-members"]
     if not w:
         return
     _, _, p = w[0]
     runs = 20 if tier == "quick" else 200
     ans = pool.map([prog_job(p)] * runs, timeout=20)
-    names = ["zq", "yq", "xq", "wq"]
-    model = driver([f"intern merged 0,1,2,3 - {','.join(hexs(x) for x in names)}"])[0]
-    members = sorted(unhex(x) for x in model[3:].split(",")) if model.startswith("ok ") else None
+    names = ["xq", "wq", "zq", "yq"]                       # upstream order: n.scss ($xq, $wq), then m.scss ($zq, $yq)
+    model = driver([f"intern keywords 0 - {','.join(hexs(x) for x in names)}"])[0]
+    expect = [unhex(x) for x in model[3:].split(",")] if model.startswith("ok ") else None
     orders = set()
     for a in ans:
         o = observe(a)
         m = re.search(r"b: \((.*)\);", o[1]) if o[0] == "css" else None
         got = [kv.split(":")[0].strip().strip('"') for kv in m.group(1).split(",")] if m else None
         orders.add(tuple(got or ()))
-        ck.count(("hashed-tie", got), True)
-        if got is None or sorted(got) != members:
+        ck.count(("merged-tie", got), True)
+        if got != expect:
             ck.cov["model_disagreements"] += 1
             if len(ck.disagreements) < 3:
-                ck.disagreements.append({"source": prog_text(p), "model_observation": members, "impl_observation": got or list(o)})
-    ck.hist("hashed-tie:distinct-orders", len(orders))
+                ck.disagreements.append({"source": prog_text(p), "model_observation(now)": expect, "impl_observation": got or list(o)})
+    ck.hist("merged-tie:distinct-orders", len(orders))
     ck.cov["hash_order_variants_seen"] = len(orders)
 
 
@@ -522,6 +541,8 @@ def cli_processes(ck, R, pool, programs, usable, tier):
         return
     rng = ck.rng
     cand = [i for i in usable if programs[i]["origin"].startswith("gen:competing")]
+    # load paths given in non-alphabetical order first: a sorted/de-duplicated search order must show
+    cand.sort(key=lambda i: programs[i]["options"]["load_paths"] == sorted(programs[i]["options"]["load_paths"]))
     cand = cand[:5] if tier == "quick" else cand[:24]
     n_runs = 20 if tier == "quick" else 50
     root = os.path.join(BUILD, f"c02-{os.getpid()}-{ck.seed}")
@@ -849,5 +870,5 @@ def replay(path):
     print(f"after {len(hj)} prior compilation(s) on the same thread:", other)
     same = driver([f"intern same err {hexs(ref[0] + ':' + ref[1])} err {hexs(other[0] + ':' + other[1])}"])[0]
     print("P̂ sameObs (Lean driver):", same, "| recorded other observation:", r.get("other_observation"))
-    print("class tags now:", classify(prog_text(p), ref, other) if ref != other else "(no difference)")
+    print("class tags now:", classify(prog_text(p), ref, other, bool(hj)) if ref != other else "(no difference)")
     return 0 if same == "ok 1" else 1
